@@ -97,9 +97,9 @@ class AddressBase(Base):
                 other_ipnet = self._get_ipnet(other_item)
                 if not other_ipnet:
                     raise TypeError(f"{other_ipnet=} {IPv4Network} expected")
-                if other_ipnet.subnet_of(self_ipnet):
-                    return True
-            return False
+                if not other_ipnet.subnet_of(self_ipnet):
+                    return False
+            return True
 
         raise TypeError(f"{other=} type AddressAg expected")
 
